@@ -21,11 +21,6 @@ Proof.
   - apply IH in H; lia.
 Qed.
 
-Lemma lower_is_lf : forall c, lower c = LF -> c = LF.
-Proof.
-  intros c H. destruct (lower_range c) as [E|[R _]]; [congruence|]. unfold LF in H. lia.
-Qed.
-
 Lemma line_end_after_key : forall conf key pos,
   occurs (to_lower conf) key pos -> key <> [] -> key_chars_ok key ->
   (pos + length key <= match find_if is_lf conf pos with None => length conf | Some nl => nl end <= length conf)%nat.
